@@ -745,6 +745,9 @@ func c11IdSubject(t *Term) *Term {
 // matchedElem: e is an element of recv.allNodesMIMO, and on the edge pred->succ the id of that very element
 // is known to equal the id parameter (parameter 1 of Node/From/To).
 func (l *c11Lookup) matchedElem(e ssa.Value, conds []Guard) bool {
+	if l.matchedAtIndex(e, conds) {
+		return true
+	}
 	t := l.tm.Of(e)
 	if t.Op != "elem" || t.String() != "recv.allNodesMIMO[*]" {
 		return false
@@ -765,6 +768,104 @@ func (l *c11Lookup) matchedElem(e ssa.Value, conds []Guard) bool {
 		}
 	}
 	return false
+}
+
+// matchedAtIndex: e is recv.allNodesMIMO[idx] for an index variable idx that records WHERE a search found the id
+// (`idx := -1; for i := range list { if list[i].ID() == id { idx = i; break } }; if idx < 0 { return nil };
+// return list[idx]` - the shape of slices.IndexFunc, written out or expanded by the normaliser): everything idx can
+// hold is either a position i received on an edge on which the id of recv.allNodesMIMO[i] - that very position - was
+// compared equal with the id parameter, or a constant (the "not found" mark) that the branch outcomes known where
+// the element is read (conds) exclude. The function itself never stores to the list or its elements, so the element
+// at a recorded position is still the one that was compared.
+func (l *c11Lookup) matchedAtIndex(e ssa.Value, conds []Guard) bool {
+	u, ok := e.(*ssa.UnOp)
+	if !ok || u.Op != token.MUL {
+		return false
+	}
+	ia, ok := u.X.(*ssa.IndexAddr)
+	if !ok || l.tm.Of(ia.X).String() != "recv.allNodesMIMO" {
+		return false
+	}
+	root, ok := ia.Index.(*ssa.Phi)
+	if !ok {
+		return false
+	}
+	writes := false
+	Instrs(l.fn, func(_ *ssa.BasicBlock, _ int, in ssa.Instruction) {
+		st, isSt := in.(*ssa.Store)
+		if !isSt {
+			return
+		}
+		if f := StoredField(st); f != nil && f.Name() == "allNodesMIMO" {
+			writes = true
+		}
+		if sa, isIA := st.Addr.(*ssa.IndexAddr); isIA && strings.HasPrefix(l.tm.Of(sa.X).String(), "recv.allNodesMIMO") {
+			writes = true
+		}
+	})
+	if writes {
+		return false
+	}
+	// a constant the index may hold is excluded by a test of the index made before the element is read
+	excluded := func(k *ssa.Const) bool {
+		if k.Value == nil || k.Value.Kind() != constant.Int {
+			return false
+		}
+		for _, g := range conds {
+			x, y, op, isCmp := CmpFact(g.Cond, g.True)
+			if !isCmp || x != ssa.Value(root) {
+				continue
+			}
+			if c, isC := y.(*ssa.Const); isC && c.Value != nil && c.Value.Kind() == constant.Int && !constant.Compare(k.Value, op, c.Value) {
+				return true
+			}
+		}
+		return false
+	}
+	nPos, okAll := 0, true
+	seen := map[*ssa.Phi]bool{}
+	var walk func(ph *ssa.Phi)
+	walk = func(ph *ssa.Phi) {
+		if seen[ph] {
+			return
+		}
+		seen[ph] = true
+		for i, x := range ph.Edges {
+			if in, isPhi := x.(*ssa.Phi); isPhi {
+				walk(in)
+				continue
+			}
+			if k, isK := x.(*ssa.Const); isK {
+				if !excluded(k) {
+					okAll = false
+				}
+				continue
+			}
+			found := false
+			for _, g := range c11EdgeConds(ph.Block().Preds[i], ph.Block()) {
+				a, b, isEq := eqCond(l.tm, g)
+				if !isEq {
+					continue
+				}
+				if isParamIdx(a, 1) {
+					a, b = b, a
+				}
+				if !isParamIdx(b, 1) {
+					continue
+				}
+				if n := c11IdSubject(a); n != nil && n.Op == "elem" && len(n.Args) >= 2 && n.Args[0].String() == "recv.allNodesMIMO" && n.Args[1].V == x {
+					found = true
+				}
+			}
+			if found {
+				nPos++
+			} else {
+				okAll = false
+			}
+		}
+	}
+	walk(root)
+	return okAll && nPos > 0
 }
 
 func c11EdgeConds(pred, succ *ssa.BasicBlock) []Guard {
@@ -921,4 +1022,465 @@ func c11PhiMayBeNil(root *ssa.Phi) bool {
 		return false
 	}
 	return walk(root)
+}
+
+// ---------------------------------------------------------------------------
+// The node lists of Genesis (C11.1 / C11.7)
+//
+// Genesis collects the expressed nodes in three lists (inputs, outputs, all) that grow in the loop over the genome's
+// nodes and are handed to the network constructors after it. Kept in three locals each list is, after SSA construction,
+// a phi of the loop header, and that phi IS the list the constructors receive. Gathered into one by-value local struct
+// (`lists := struct{in, out, all []*NNode}{...}`) the lists live in the fields of an allocation that go/ssa does not
+// promote: every use is a load of the field, every update a store to it. Such a field is the same private variable
+// (robust_c08.go: structLocals / localCell / scanVar) as long as its address is used for nothing else. c11ListVar gives
+// the rule the same three facts for either form:
+//   - the loop that carries the list (for a field: the one loop all of its writers inside loops belong to; every other
+//     writer - the local coming into being, the initialising stores - lies in a block that strictly dominates the
+//     header of that loop, which is not nested in another loop, so it runs once, before the loop);
+//   - what one iteration path does to the list (unchanged / the value it has at the end, and whether an append extends
+//     the value the list had at the start of the iteration);
+//   - which reads see the FINAL list: the header phi itself, or a load of the field in a block outside the loop that the
+//     loop header dominates (no writer lies between the loop and such a read: a writer outside the loop dominates the
+//     header, and a path from it to the read that avoids the header would contradict the header dominating the read).
+
+type c11ListVar struct {
+	fn     *ssa.Function
+	locals map[*ssa.Alloc]bool
+	sv     scanVar
+	loop   *Loop
+}
+
+// c11ListVarOf: the list variable that v (an argument of a network constructor) reads; nil: v is neither a phi of a
+// loop header nor a final read of a privately held struct field written as described above.
+func c11ListVarOf(fn *ssa.Function, locals map[*ssa.Alloc]bool, loops []*Loop, v ssa.Value) *c11ListVar {
+	if ph, ok := v.(*ssa.Phi); ok {
+		l := InnermostLoop(loops, ph.Block())
+		if l == nil || l.Header != ph.Block() {
+			return nil
+		}
+		return &c11ListVar{fn: fn, locals: locals, sv: scanVar{phi: ph}, loop: l}
+	}
+	c, ok := cellOfLoad(locals, v)
+	if !ok {
+		return nil
+	}
+	var loop *Loop
+	var outside []*ssa.BasicBlock
+	mixed := false
+	Instrs(fn, func(b *ssa.BasicBlock, _ int, in ssa.Instruction) {
+		if !writesCell(locals, in, c) {
+			return
+		}
+		l := InnermostLoop(loops, b)
+		switch {
+		case l == nil:
+			outside = append(outside, b)
+		case loop == nil:
+			loop = l
+		case loop != l:
+			mixed = true
+		}
+	})
+	if loop == nil || mixed {
+		return nil
+	}
+	for _, l := range loops {
+		if l != loop && l.Blocks[loop.Header] {
+			return nil // nested: the writers in front of the loop would run again
+		}
+	}
+	for _, b := range outside {
+		if b == loop.Header || !b.Dominates(loop.Header) {
+			return nil
+		}
+	}
+	lv := &c11ListVar{fn: fn, locals: locals, sv: scanVar{cell: &c}, loop: loop}
+	if !lv.final(v) {
+		return nil
+	}
+	return lv
+}
+
+// final: x is the list as it stands when the loop has ended.
+func (lv *c11ListVar) final(x ssa.Value) bool {
+	if lv.sv.phi != nil {
+		return x == ssa.Value(lv.sv.phi)
+	}
+	c, ok := cellOfLoad(lv.locals, x)
+	if !ok || c != *lv.sv.cell {
+		return false
+	}
+	b := x.(*ssa.UnOp).Block()
+	return !lv.loop.Blocks[b] && lv.loop.Header.Dominates(b)
+}
+
+// appended: what the iteration path ip (ending on the back edge of lv.loop) does to the list: changed=false: it is
+// left as it was; otherwise ok says that its new value is append(<the list as it was at the start of the iteration>, node).
+func (lv *c11ListVar) appended(ip *IterPath, node ssa.Value) (changed, ok bool) {
+	body := ip.Blocks[:len(ip.Blocks)-1]
+	if lv.sv.phi != nil {
+		nv := ip.NextValue(lv.sv.phi)
+		if nv == ssa.Value(lv.sv.phi) {
+			return false, true
+		}
+		base, elems, isApp := appendCall(nv)
+		sub := &IterPath{Blocks: body, End: "partial"}
+		return true, isApp && sub.Resolve(base) == ssa.Value(lv.sv.phi) && len(elems) == 1 && elems[0] == node
+	}
+	s := newLocalPathSeq(lv.fn, lv.locals, body)
+	nv, updated, known := lv.sv.next(ip, s)
+	if !known {
+		return true, false
+	}
+	if !updated {
+		return false, true
+	}
+	base, elems, isApp := appendCall(nv)
+	return true, isApp && lv.sv.isCurrent(base, s) && len(elems) == 1 && elems[0] == node
+}
+
+// startsEmpty: the list holds no element when the loop is entered ("" / what it starts as).
+func (lv *c11ListVar) startsEmpty(tm *Termer) string {
+	if lv.sv.phi != nil {
+		// every value the variable receives that is not an append (those are tied to the nodes path by path)
+		for _, f := range phiWeb(lv.sv.phi).Feeders {
+			if _, _, isApp := appendCall(f); isApp {
+				continue
+			}
+			if !c11IsEmptyList(f) {
+				return tm.Of(f).String()
+			}
+		}
+		return ""
+	}
+	vals, ok := lv.sv.initValues(lv.fn, lv.locals, lv.loop)
+	if !ok {
+		return "a value that cannot be determined"
+	}
+	for _, v := range vals {
+		if !c11IsEmptyList(v) {
+			return tm.Of(v).String()
+		}
+	}
+	return ""
+}
+
+// ---------------------------------------------------------------------------
+// Values selected by the direction flag (C11.6, edgeBetween)
+//
+// `list, id := vNode.Incoming, uid; if !directed { list, id = uNode.Incoming, vid }; for _, l := range list {...}` is
+// one loop doing the work of two: which list it scans and which id it compares with is decided by the parameter
+// `directed`. The rules reason per value of that parameter anyway (a directed and an undirected query are separate
+// cases), so within a case such a variable is replaced by the one value it can have: a phi keeps only the incoming edges
+// that can be taken with flag == val - an edge is dropped when a branch outcome known on it (the outcomes dominating
+// its source block, and the outcome of the branch it leaves) tests the parameter itself with the other result. The
+// parameter is an SSA value, never reassigned, so every execution of the case enters the phi's block over one of the
+// remaining edges; with exactly one left, the phi IS that edge's value in the case.
+func c11UnderFlag(v ssa.Value, flag *ssa.Parameter, val bool) ssa.Value {
+	for depth := 0; depth < 8; depth++ {
+		ph, ok := v.(*ssa.Phi)
+		if !ok {
+			return v
+		}
+		n, last := 0, -1
+		for i := range ph.Edges {
+			feasible := true
+			for _, g := range c11EdgeConds(ph.Block().Preds[i], ph.Block()) {
+				if fv, isFlag := c11FlagFact(g, flag); isFlag && fv != val {
+					feasible = false
+				}
+			}
+			if feasible {
+				n++
+				last = i
+			}
+		}
+		if n != 1 {
+			return v
+		}
+		v = ph.Edges[last]
+	}
+	return v
+}
+
+// c11FlagFact: what the branch outcome g says about the boolean parameter flag (`flag`, `!flag`, `flag == true` ...).
+func c11FlagFact(g Guard, flag *ssa.Parameter) (val, ok bool) {
+	cond, neg := c13StripNot(g.Cond)
+	if cond == ssa.Value(flag) {
+		return g.True != neg, true
+	}
+	if x, y, op, isCmp := CmpFact(g.Cond, g.True); isCmp && x == ssa.Value(flag) {
+		if k, isK := y.(*ssa.Const); isK && k.Value != nil && k.Value.Kind() == constant.Bool {
+			switch op {
+			case token.EQL:
+				return constant.BoolVal(k.Value), true
+			case token.NEQ:
+				return !constant.BoolVal(k.Value), true
+			}
+		}
+	}
+	return false, false
+}
+
+// c11TermUnderFlag: the term of t's value in the case flag == val (t itself when the case does not select anything).
+func c11TermUnderFlag(tm *Termer, t *Term, flag *ssa.Parameter, val bool) *Term {
+	if t == nil || t.V == nil {
+		return t
+	}
+	if nv := c11UnderFlag(t.V, flag, val); nv != t.V {
+		return tm.Of(nv)
+	}
+	return t
+}
+
+// c11IsLinkList: t is the Incoming / Outgoing list of a node, or a variable that holds nothing but such lists.
+func c11IsLinkList(t *Term) bool {
+	if t == nil {
+		return false
+	}
+	switch t.Op {
+	case "field":
+		return t.Name == "Incoming" || t.Name == "Outgoing"
+	case "phi":
+		for _, a := range t.Args {
+			if !c11IsLinkList(a) {
+				return false
+			}
+		}
+		return len(t.Args) > 0
+	}
+	return false
+}
+
+// c11IsLinkElem: v is an element of a node's link list (never nil: Genesis appends constructor results only).
+func c11IsLinkElem(tm *Termer, v ssa.Value) bool {
+	if _, isPhi := v.(*ssa.Phi); isPhi {
+		return false
+	}
+	t := tm.Of(v)
+	return t.Op == "elem" && len(t.Args) >= 1 && c11IsLinkList(t.Args[0])
+}
+
+// ---------------------------------------------------------------------------
+// The node lookup answers nil only for an absent id (C11.4, graph.nodeWithID.complete)
+//
+// Node, From and To report "no such node" exactly when nodeWithID answers nil, so nil must not be answered while
+// allNodesMIMO holds a node with the id asked for. Decided on the paths of the function:
+//   (scan)   there is a loop over recv.allNodesMIMO whose index starts at the first element, advances by one and is
+//            tested against len(list) at the header in every iteration;
+//   (step)   every iteration that goes on to the next element has compared the id of the current element with the id
+//            asked for and found it different;
+//   (leave)  the scan is left before its end only on an iteration that found the ids equal, and from there no nil
+//            result can be reached: the value returned, followed through the variables along the path, is not nil; a
+//            "not found" test of a recorded position (`idx < 0`) cannot succeed for a position of the scan (>= 0);
+//   (before) no result is given before the scan unless the list is known to be empty.
+// So a nil answer means that the scan ran to the end of the list and every element's id differed.
+
+// c11CounterFromFirst: x, the index tested at the header of l, is a counter that starts at the first element and
+// advances by one on every way round the loop (the counter itself, or counter+1 with the counter starting at -1 - the
+// form the compiler gives a range loop).
+func c11CounterFromFirst(l *Loop, x ssa.Value) bool {
+	var ph *ssa.Phi
+	first := int64(0)
+	if q, isPhi := x.(*ssa.Phi); isPhi {
+		ph = q
+	} else if add, isAdd := x.(*ssa.BinOp); isAdd && add.Op == token.ADD {
+		if q, isPhi := add.X.(*ssa.Phi); isPhi && c13IsPlusOne(x, q) {
+			ph, first = q, -1
+		} else if q, isPhi := add.Y.(*ssa.Phi); isPhi && c13IsPlusOne(x, q) {
+			ph, first = q, -1
+		}
+	}
+	if ph == nil || ph.Block() != l.Header {
+		return false
+	}
+	entries, steps := 0, 0
+	for i, e := range ph.Edges {
+		if l.Blocks[l.Header.Preds[i]] {
+			if !c13IsPlusOne(e, ph) {
+				return false
+			}
+			steps++
+		} else {
+			if k, isK := constInt(e); !isK || k != first {
+				return false
+			}
+			entries++
+		}
+	}
+	return entries > 0 && steps > 0
+}
+
+func c11LookupComplete(p *Prog, fn *ssa.Function, tm *Termer, explored *int) (string, []string) {
+	const listName = "recv.allNodesMIMO"
+	loops := Loops(fn)
+	why := "there is no loop over " + listName + " from its first element to its last, tested against len(" + listName + ") at the loop header"
+	var witness []string
+	for _, l := range loops {
+		lt, idx, ok := c11ListScan(tm, l)
+		if !ok || lt.String() != listName || !c11CounterFromFirst(l, idx) {
+			continue
+		}
+		nested := false
+		for _, o := range loops {
+			if o == l {
+				continue
+			}
+			for b := range o.Blocks {
+				if l.Blocks[b] {
+					nested = true
+				}
+			}
+		}
+		if nested {
+			why = "the loop over " + listName + " is nested in or contains another loop"
+			continue
+		}
+		w, wit := c11LookupCompleteScan(p, fn, tm, l, idx, explored)
+		if w == "" {
+			return "", nil
+		}
+		why, witness = w, wit
+	}
+	return why, witness
+}
+
+func c11LookupCompleteScan(p *Prog, fn *ssa.Function, tm *Termer, l *Loop, idx ssa.Value, explored *int) (string, []string) {
+	const listName = "recv.allNodesMIMO"
+	// idTest: the outcome g compares the id of the element the scan is at with the id asked for; equal says how
+	idTest := func(g Guard) (equal, ok bool) {
+		for _, eq := range []bool{true, false} {
+			gg := g
+			if !eq {
+				gg.True = !g.True
+			}
+			a, b, isEq := eqCond(tm, gg)
+			if !isEq {
+				continue
+			}
+			if isParamIdx(a, 1) {
+				a, b = b, a
+			}
+			if !isParamIdx(b, 1) {
+				continue
+			}
+			if n := c11IdSubject(a); n != nil && n.Op == "elem" && len(n.Args) >= 2 && n.Args[0].String() == listName && n.Args[1].V == idx {
+				return eq, true
+			}
+		}
+		return false, false
+	}
+	outcome := func(conds []Guard, equal bool) bool {
+		for _, g := range conds {
+			if !l.Blocks[g.At] {
+				continue
+			}
+			if e, ok := idTest(g); ok && e == equal {
+				return true
+			}
+		}
+		return false
+	}
+	// (before)
+	isList := func(v ssa.Value) bool { return tm.Of(v).String() == listName }
+	for _, b := range fn.Blocks {
+		if _, isRet := b.Instrs[len(b.Instrs)-1].(*ssa.Return); !isRet || l.Header.Dominates(b) {
+			continue
+		}
+		empty := false
+		for _, g := range Guards(b) {
+			if assertsEmptyLen(g.Cond, g.True, isList) {
+				empty = true
+			}
+		}
+		if !empty {
+			return "a result is given before " + listName + " was scanned, for a list that is not known to be empty", []string{describeBlock(p, b, nil)}
+		}
+	}
+	paths, complete := EnumIterPaths(fn, l, 200)
+	*explored += len(paths)
+	if !complete {
+		return "the scan over " + listName + " has too many paths to enumerate", nil
+	}
+	// a test `position op constant` that no position of the scan (>= 0) passes
+	impossible := func(op token.Token, k int64) bool {
+		switch op {
+		case token.LSS:
+			return k <= 0
+		case token.LEQ, token.EQL:
+			return k < 0
+		}
+		return false
+	}
+	for _, ip := range paths {
+		switch {
+		case ip.End == "back":
+			// (step)
+			if !outcome(ip.Conds, false) {
+				return "the scan over " + listName + " can go on to the next node without the id of the current one having been compared with the id asked for and found different", ip.Describe(p)
+			}
+			continue
+		case len(ip.Blocks) == 2 && ip.Blocks[0] == l.Header:
+			continue // the end of the list: whatever is answered, every element was compared
+		}
+		// (leave)
+		if !outcome(ip.Conds, true) {
+			return "the scan over " + listName + " can be left before its end on a node whose id was not found equal to the id asked for", ip.Describe(p)
+		}
+		var tails []*IterPath
+		if ip.End == "return" {
+			tails = []*IterPath{{Blocks: nil, End: "return"}}
+		} else {
+			var ok bool
+			tails, ok = EnumRegionPaths(fn, ip.ExitTo, func(*ssa.BasicBlock) bool { return false }, 200)
+			*explored += len(tails)
+			if !ok {
+				return "too many paths lead from the scan over " + listName + " to a result", nil
+			}
+		}
+		for _, tp := range tails {
+			blocks := append([]*ssa.BasicBlock{}, ip.Blocks...)
+			if len(tp.Blocks) > 1 {
+				blocks = append(blocks, tp.Blocks[1:]...)
+			}
+			whole := &IterPath{Blocks: blocks, End: "partial"}
+			if tp.End == "cycle" {
+				return "the code behind the scan over " + listName + " loops", whole.Describe(p)
+			}
+			feasible := true
+			for _, g := range tp.Conds {
+				x, y, op, isCmp := CmpFact(g.Cond, g.True)
+				if !isCmp {
+					continue
+				}
+				// the value tested, as it stands where the test is made
+				upto := -1
+				for i, b := range blocks {
+					if b == g.At {
+						upto = i
+					}
+				}
+				if upto < 0 {
+					continue
+				}
+				sub := &IterPath{Blocks: blocks[:upto+1], End: "partial"}
+				if k, isK := constInt(y); isK && sub.Resolve(x) == idx && impossible(op, k) {
+					feasible = false
+				}
+			}
+			if !feasible {
+				continue
+			}
+			last := blocks[len(blocks)-1]
+			ret, isRet := last.Instrs[len(last.Instrs)-1].(*ssa.Return)
+			if !isRet || len(ret.Results) != 1 {
+				return "a path from the scan over " + listName + " does not end in a result", whole.Describe(p)
+			}
+			v := whole.Resolve(ret.Results[0])
+			if _, isPhi := v.(*ssa.Phi); isPhi || c11IsNilConst(v) {
+				return "nil (or a value that cannot be followed) is answered although the scan over " + listName + " found a node with the id asked for", whole.Describe(p)
+			}
+		}
+	}
+	return "", nil
 }
